@@ -281,6 +281,13 @@ Definition mon16_sent (s : pstate) (o : pstep) : bool :=
         match s_requested s with
         | h :: _ => (u_index h =? i) && (u_begin h =? b) && (u_length h =? len d)
         | [] => false
+        end &&
+        (* and only the torrent's own bytes: inside piece i, with the content the harness stored
+           there (every byte of piece i is (7 i + 1) mod 256) *)
+        match s_geo s with
+        | Some g => (b + len d <=? N.min (psize g) (total g - i * psize g)) &&
+                    forallb (fun x => x =? (i * 7 + 1) mod 256) d
+        | None => false
         end
     | _ => true
     end) (st_msgs o).
